@@ -92,11 +92,15 @@ def walk_language(req):
             words = words[:: max(1, len(words) // 6)]
         for normalize in (True, False):
             st0 = {"NORMALIZE": normalize}
+            # DOMAIN ("listed with a single meaning"): the name AS LISTED (lower-cased) stands under exactly one key of the
+            # vocabulary.  Two different listed names that only NORMALIZE folds together (az 'ça' Tuesday / 'ca' Thursday)
+            # are each single-meaning; which of them the normalised dictionary keeps is the behaviour under test.
+            plain_meanings = _assignments(info, False)
             if normalize:
-                dic, meanings = _assignments(info, True)
+                dic, _ = _assignments(info, True)
             else:
-                dic = _assignments(info, False)
-                meanings = dic
+                dic = plain_meanings
+            meanings = plain_meanings
             try:
                 real = loc._get_dictionary(_settings(st0))._dictionary
             except Exception:
@@ -106,7 +110,7 @@ def walk_language(req):
                 form = w.lower()
                 if normalize:
                     form = normalize_unicode(form)
-                assign = meanings.get(form, [])
+                assign = meanings.get(w.lower(), [])
                 dv = "<unobserved>"
                 if real is not None:
                     v = real.get(form, "<absent>")
@@ -233,13 +237,13 @@ def walk_relative(req):
             lang_sig = sig
         elif sig == lang_sig and req.get("quick"):
             fixed, pats = fixed[::5], pats[::7]
-        _, meanings = _assignments(info, True)
+        meanings = _assignments(info, False)          # the phrase as listed (see walk_language on the domain)
         items = []
         for k, w in fixed:
             c = _canon(k, "")
             if c is None:
                 continue
-            assign = meanings.get(normalize_unicode(w.lower()), [])
+            assign = meanings.get(w.lower(), [])
             items.append((k, w, w, c, assign, "fixed"))
         allpats = [p for _, p in pats]
         for k, p in pats:
